@@ -261,7 +261,9 @@ template<class F> struct Menu {
       case FORM_CO: o.c = std::make_shared<CSk>(sk.compact(true)); break;
       case FORM_DB: o.c = std::make_shared<CSk>(F::deser_bytes(F::ser_bytes(sk.compact(true)), seed)); break;
       case FORM_DS: { std::stringstream ss(std::ios::in | std::ios::out | std::ios::binary); F::ser_stream(sk.compact(false), ss); o.c = std::make_shared<CSk>(F::deser_stream(ss, seed)); break; }
-      default: o.c = std::make_shared<CSk>(F::from_theta(th, 1000 + idx, (idx & 1) != 0)); break;
+      default: { // from an update theta sketch or from its compact (ordered / unordered) form
+        const compact_theta_sketch thc = th.compact((idx & 4) != 0);
+        o.c = std::make_shared<CSk>((idx & 2) ? F::from_theta(thc, 1000 + idx, (idx & 1) != 0) : F::from_theta(th, 1000 + idx, (idx & 1) != 0)); break; }
     }
     o.v = view_of<F>(o.base());
     if (r.form == FORM_TH) {
@@ -570,6 +572,7 @@ int main(int argc, char** argv) {
   std::string ht = oracle::self_test();
   if (!ht.empty()) { fprintf(stderr, "HARNESS-ERROR oracle hash self-test failed: %s\n", ht.c_str()); return 3; }
   forbid_unowned_draws();
+  case_timeout_s() = 600;   // the watchdog is re-armed every 64 cases; 64 paths of 400 steps on a loaded machine exceeded the default 20 s once
   const bool q = cfg.quick();
   std::vector<Task> tasks;
   { Task t; t.name = "notes"; t.fn = [](Report& rep) {
